@@ -9,7 +9,7 @@ CallOK(o, c) ==
   /\ c.op \in Ops
   /\ c.ms <= Bound(o.proto, c.op)                                        \* returns within a bounded time
   /\ (c.after_crash => c.res \in Allowed(o.point, o.proto, c.op, o.out.started_ok))
-  /\ (~c.after_crash => c.res = "ok")                                     \* before the crash everything works (sanity of the scenario)
+  /\ ((~c.after_crash /\ ~c.racing) => c.res = "ok")                                     \* before the crash everything works (sanity of the scenario)
 
 Conforms(o) ==
   /\ o.point \in Points /\ o.proto \in Protos /\ Exists(o.point, o.proto)
